@@ -46,6 +46,10 @@ def run(ctx):
     ctx.rule("R4", "core-core special-case predicates (PM6 family) and Gaussian term counts equal the specification")
     ctx.rule("R5", "isolated-atom energy pairs each parameter with its own coefficient table")
     ctx.rule("R6", "name/position agreement on long positional interfaces; interchangeable Fock builders have identical signatures")
+    ctx.rule("R7", "block reshapes keep axis meaning: every reshape/transpose chain between (mol[,spin],N,N) matrices and (pair,orb,orb) blocks is order-consistent")
+    ctx.rule("R8", "integral pipeline hygiene: no pure tensor result is discarded; the h_pp floor of 0.1 eV feeds rho_2")
+    check_block_reshapes(ctx, "R7")
+    check_pipeline_hygiene(ctx, "R8")
 
     # ------------------------------------------------------------------ R1
     c_f = Linearity(fk).func(fk.func("fock"), {"P0": H})
@@ -388,3 +392,98 @@ def one_center_first_principles(ctx, repo, rid):
                   f"_one_center_u: element ({a},{b}) = {sp.factor(v)} but the spin-s NDDO Fock element is {sp.factor(Fa[a][b])} "
                   f"(wrong spin density in a Coulomb/exchange term only shows for spin-polarised densities)")
     return code, codeu, P, Pa, Pb
+
+
+PURE_METHODS = {"clamp_min", "clamp_max", "clamp", "abs", "sqrt", "exp", "log", "pow", "neg", "masked_fill", "triu", "tril", "transpose", "reshape", "clone", "detach", "round",
+                "floor", "unsqueeze", "squeeze", "permute", "view", "contiguous", "expand", "flatten", "mul", "div", "sub", "sum", "mean"}
+
+
+def check_pipeline_hygiene(ctx, rid):
+    repo = ctx.repo
+    n = 0
+    for m in repo.modules("seqm/seqm_functions", "seqm/basics.py"):
+        for st in ast.walk(m.tree):
+            if isinstance(st, ast.Expr) and isinstance(st.value, ast.Call) and isinstance(st.value.func, ast.Attribute) and st.value.func.attr in PURE_METHODS:
+                n += 1
+                ctx.fail(rid, m, st, m.qualname_of(st), st, f"`{short(norm(st), 70)}` computes a new tensor and discards it (the out-of-place method has no effect on "
+                         f"`{norm(st.value.func.value)}`): the intended bound / transformation is silently not applied")
+    ctx.ok(rid, "seqm/seqm_functions", f"no expression statement discards the result of an out-of-place tensor method ({n} found)")
+    # h_pp floor (MOPAC: hpp = max(0.1 eV, (gpp - gp2)/2)) feeds the quadrupole additive term
+    from .c01 import _pipeline
+    te = repo.mod(TE) if "TE" in globals() else repo.mod("seqm/seqm_functions/two_elec_two_center_int.py")
+    f = te.func("two_elec_two_center_int")
+    pe = _pipeline(te, f, ["hpp"])
+    got = sorted(pe["hpp"])
+    ok_ = got and got[-1].replace(" ", "") in ("(0.5*(gpp-gp2)).clamp_min(0.1)", "torch.clamp(0.5*(gpp-gp2),min=0.1)", "(0.5*(gpp-gp2)).clamp(min=0.1)")
+    ctx.check(bool(ok_), rid, te, f, "two_elec_two_center_int", "hpp", "hpp = max(0.1, (gpp - gp2)/2) (MOPAC floor) is what the rho_2 solver receives",
+              f"hpp is derived as {got}: the 0.1 eV floor of the published parametrisation is not applied (elements with (gpp-gp2)/2 < 0.1 eV get a different rho_2)")
+    r2 = [c for c in calls_in(f) if (call_name(c) or "") == "rho2"]
+    ctx.check(bool(r2) and all(norm(c.args[0]).split("[")[0] == "hpp" for c in r2), rid, te, r2[0] if r2 else f, "two_elec_two_center_int", "rho2(hpp, qq)",
+              "rho_2 is solved from the floored hpp", f"rho2 is called with {[norm(c.args[0]) for c in r2]}")
+
+
+SIZE_KINDS = {"2": "spin", "nmol": "mol", "molsize": "atom", "nbf": "orb", "4": "orb", "9": "orb", "nrs": ("atom", "orb")}
+
+
+def check_block_reshapes(ctx, rid):
+    from ..axes import AxisError, kinds, trace
+    repo = ctx.repo
+    MAT3 = [(("mol", "b"),), (("atom", "r"), ("orb", "r")), (("atom", "c"), ("orb", "c"))]
+    MAT4 = [MAT3[0], (("spin", "s"),)] + MAT3[1:]
+    BLK3 = [(("mol", "b"), ("atom", "r"), ("atom", "c")), (("orb", "r"),), (("orb", "c"),)]
+    BLK4 = [(("spin", "s"),)] + BLK3
+    want_blk = {"3": kinds(BLK3), "4": kinds(BLK4)}
+    want_mat = {"3": kinds(MAT3), "4": kinds(MAT4)}
+    sites = [("seqm/seqm_functions/fock_u_batch.py", None, "4"), ("seqm/seqm_functions/fock.py", None, "3"), ("seqm/seqm_functions/anal_grad.py", "contract_ao_derivatives_with_density", None)]
+    n = 0
+    for rel, only, dim in sites:
+        m = repo.mod(rel)
+        for qual, func in m.functions.items():
+            if only and qual != only:
+                continue
+            for st in ast.walk(func):
+                if not (isinstance(st, ast.Assign) and len(st.targets) == 1 and isinstance(st.targets[0], ast.Name)) or m.qualname_of(st) != qual:
+                    continue
+                v = st.value
+                txt = norm(v)
+                if ".reshape(" not in txt and ".view(" not in txt:
+                    continue
+                root = v
+                while True:
+                    if isinstance(root, ast.Call) and isinstance(root.func, ast.Attribute):
+                        root = root.func.value
+                    elif isinstance(root, ast.Subscript):
+                        root = root.value
+                    elif isinstance(root, ast.BinOp):
+                        root = root.left
+                    else:
+                        break
+                if not isinstance(root, ast.Name) or root.id not in ("P0", "F_", "F"):
+                    continue
+                d = dim
+                if d is None:
+                    from ..guards import controlling
+                    ctrl = [(norm(a), p) for a, p, _ in controlling(m, st, stop=func)]
+                    d = "4" if ("unrestricted", True) in ctrl else "3" if ("unrestricted", False) in ctrl else None
+                    if d is None:
+                        continue
+                if root.id == "P0":
+                    lay = {"P0": MAT4 if d == "4" else MAT3}
+                    want = want_blk
+                    # the spin-summed density of an unrestricted calculation is a 3-axis block tensor
+                    wd = "3" if "P0[:, 0]" in txt else d
+                else:
+                    lay = {root.id: BLK4 if d == "4" else BLK3}
+                    want = want_mat
+                    wd = d
+                n += 1
+                try:
+                    got = kinds(trace(v, lay, SIZE_KINDS))
+                except AxisError as e:
+                    ctx.fail(rid, m, st, qual, f"{st.targets[0].id} = {short(txt, 60)}", f"{st.targets[0].id}: {e}: an index of one meaning is reinterpreted as another "
+                             f"(invisible when the two sizes coincide, e.g. a single molecule)")
+                    continue
+                ctx.check(got == want[wd], rid, m, st, qual, f"{st.targets[0].id} = {short(txt, 60)}",
+                          f"{st.targets[0].id}: {' -> '.join(['x'.join(a) for a in got])} is the expected {'block' if root.id == 'P0' else 'matrix'} layout",
+                          f"{st.targets[0].id} ends with axes {got} but the expected layout is {want[wd]}")
+    ctx.floor(rid, 10)
